@@ -49,7 +49,7 @@ def run_tv(res, families, modes, known_roles=(), note="", reject_is_violation=Fa
             script = os.path.join(tvrun.WORK, "src", r["name"] + ".roto")
             if reject_is_violation or ("panic" in r["reason"][:40] or "crash" in r["reason"][:40]):
                 # every program of these families is a documented spelling / a chain the documented table accepts
-                res.violation(f"{r['name']}: a program that the documented grammar accepts is rejected (or crashes the compiler): {r['reason'][:160]}",
+                res.violation(f"{r['name']}: a corpus program - well-typed by construction, documented spellings only, accepted on the pinned tree - is rejected (or crashes the compiler): {r['reason'][:160]}",
                               {"engine": "tv-compile", "program": r["name"], "source": open(script).read(), "report": r["reason"]})
             else:
                 res.inconclusive.append(f"{r['name']}: generated program rejected by the compiler: {r['reason'][:200]}")
